@@ -1092,7 +1092,10 @@ class Interp:
         if isinstance(res, _U) and all(tm.contains(to_term(res), lambda n, v=to_term(dict.__getitem__(kw, k)): n == v) for k in left):
             return
         for k in left:
-            self.record("ignored-option", name, [dict.__getitem__(kw, k)], {}, node, {"option": k, "receiver": type(recv).__name__ if recv is not None else None})
+            v_ = dict.__getitem__(kw, k)
+            if recv is None and is_pyconst(v_) and _library_default(name, k, pyval(v_)):
+                continue  # the option is spelled out with the value the library uses anyway
+            self.record("ignored-option", name, [v_], {}, node, {"option": k, "receiver": type(recv).__name__ if recv is not None else None})
 
 
     def _call(self, f, args, kwargs, node, fr):
@@ -1148,7 +1151,47 @@ class Interp:
 # from the recorded call (sorted: C07 reads key / reverse from the event), or they do not change values (dtype=float of a table built
 # from floats, the regular expression that separates the columns of a text table, the index of a one-row table, keepdims)
 IGNORED_OPTIONS_OK = {("builtins.sorted", "key"), ("builtins.sorted", "reverse"), ("numpy.linalg.norm", "keepdims"), ("pandas.DataFrame", "dtype"),
-                      ("pandas.DataFrame", "index"), ("pandas.read_csv", "dtype"), ("pandas.read_csv", "sep"), ("pandas.read_csv", "skiprows")}
+                      ("pandas.DataFrame", "index"), ("pandas.read_csv", "dtype"), ("pandas.read_csv", "sep"), ("pandas.read_csv", "skiprows"),
+                      # tuning parameters of the space-partitioning trees: they change how the tree is laid out, never what a query returns
+                      ("sklearn.neighbors.KDTree", "leaf_size"), ("sklearn.neighbors.BallTree", "leaf_size"), ("scipy.spatial.KDTree", "leafsize"),
+                      ("scipy.spatial.cKDTree", "leafsize"), ("scipy.spatial.KDTree", "balanced_tree"), ("scipy.spatial.cKDTree", "balanced_tree"),
+                      ("scipy.spatial.KDTree", "compact_nodes"), ("scipy.spatial.cKDTree", "compact_nodes")}
+
+
+_LIBDEF = {}
+
+
+def _library_default(dotted, option, value):
+    """is `value` the default of keyword `option` of the installed library function `dotted` (introspected, as in E9)?"""
+    key = (dotted, option)
+    if key not in _LIBDEF:
+        _LIBDEF[key] = ("?",)
+        try:
+            import importlib
+            import inspect
+            parts = dotted.split(".")
+            obj = None
+            for i in range(len(parts), 0, -1):
+                try:
+                    obj = importlib.import_module(".".join(parts[:i]))
+                    rest = parts[i:]
+                    break
+                except ImportError:
+                    continue
+            for a in rest:
+                obj = getattr(obj, a)
+            p_ = inspect.signature(obj).parameters.get(option)
+            if p_ is not None and p_.default is not inspect.Parameter.empty:
+                _LIBDEF[key] = ("ok", p_.default)
+        except Exception:  # noqa
+            pass
+    d = _LIBDEF[key]
+    if d[0] != "ok":
+        return False
+    try:
+        return type(d[1]) is type(value) and d[1] == value or (d[1] is None and value is None)
+    except Exception:  # noqa
+        return False
 
 
 class KW(dict):
